@@ -1,3 +1,80 @@
-import Chiritori.Spec.Holds
+import Chiritori.Lemmas.Pending
+import Chiritori.Lemmas.CollectAll
+/-
+  C17 — list_all = Ready regions + outstanding Pending regions, once each, in order.
+
+  With R the regions of `list` (= what `clean` deletes) and P the merged regions of the registered, non-skipped
+  elements whose condition does not hold (`pendingMarkers`; a pending region inside a larger default-strategy
+  pending region is merged into it by `merge_markers`), `list_all` is:
+    * every region of R, flagged Ready, in order (`ready_items`) - identical to `list`;
+    * every region of P that no ready region swallows, flagged Pending, in order (`pending_items`);
+    * the two interleaved in source order (`items_sorted`, under the nesting hypothesis `Laminar`: a pending
+      region that is not swallowed and starts before a ready region ends starts no later than that region).
+  R and P are each sorted and disjoint (`regions_sorted`).
+  Not yet proved: that P covers exactly the extents of the pending elements (the analogue of C02/C03's coverage
+  theorem for the pending tree) and that `Laminar` always holds for the ranges the tree produces.
+-/
 namespace Chiritori.Props.C17
+open Chiritori Chiritori.Spec
+
+def readyMarkers (src ds de : List Char) (cfg : Cfg) : List Marker :=
+  buildRemoveMarker cfg (bytesOf src) (parseSource src ds de)
+
+def pendingMarkers (src ds de : List Char) (cfg : Cfg) : List Marker :=
+  mergeMarkers (collect cfg (bytesOf src) true (parseSource src ds de)).2 []
+
+theorem listAll_eq (src ds de : List Char) (cfg : Cfg) :
+    listAllMarkers src ds de cfg = mergePending (readyMarkers src ds de cfg) (pendingMarkers src ds de cfg) := by
+  unfold listAllMarkers buildRemoveMarkerAll readyMarkers pendingMarkers buildRemoveMarker
+  rw [← collect_ready_indep]
+
+/-- every Ready region exactly once, identical to the plain list -/
+theorem ready_items (src ds de : List Char) (cfg : Cfg) :
+    (listAllMarkers src ds de cfg).filter (·.2) = listMarkers src ds de cfg := by
+  rw [listAll_eq, mergePending_ready]
+  rfl
+
+theorem regions_sorted (src ds de : List Char) (cfg : Cfg) (hde : de ≠ []) :
+    MSorted (readyMarkers src ds de cfg) 0 (blen src) ∧ MSorted (pendingMarkers src ds de cfg) 0 (blen src) := by
+  refine ⟨(buildRemoveMarker_spec src ds de cfg hde).1, ?_⟩
+  obtain ⟨hok, _⟩ := tokenize_ok src ds de hde
+  have hfl : flattenParts (parseSource src ds de) = tokenize src ds de := parse_flatten ds de _
+  have hspan : BSpan (flattenParts (parseSource src ds de)) 0 (blen src) := by
+    have := BSpan_of_chain _ 0 0 hok.chain
+    rw [hok.flatEq, Nat.zero_add] at this
+    rw [hfl]; exact this
+  have hg := collect_pending_geo cfg (bytesOf src) _ 0 (blen src) hspan (by simp)
+  exact (mergeMarkers_spec _ 0 (blen src) [] 0 hg (by simp [MSorted])).1
+
+/-- the Pending items: the pending regions not lying wholly inside a Ready region, in order -/
+theorem pending_items (src ds de : List Char) (cfg : Cfg) (hde : de ≠ []) :
+    (listAllMarkers src ds de cfg).filter (fun x => !x.2) =
+      ((pendingMarkers src ds de cfg).filter fun p => !swallowed (readyMarkers src ds de cfg) p).map fun p => (p, false) := by
+  obtain ⟨h1, h2⟩ := regions_sorted src ds de cfg hde
+  rw [listAll_eq]
+  exact mergePending_pending _ _ 0 (blen src) 0 (blen src) h1 h2
+
+def Laminar (ready pending : List Marker) : Prop :=
+  ∀ r ∈ ready, ∀ p ∈ pending, p.start < r.stop → squashes r p = false → p.start ≤ r.start
+
+theorem items_sorted (src ds de : List Char) (cfg : Cfg) (hde : de ≠ [])
+    (hl : Laminar (readyMarkers src ds de cfg) (pendingMarkers src ds de cfg)) :
+    StartsSorted (listAllMarkers src ds de cfg) 0 := by
+  obtain ⟨h1, h2⟩ := regions_sorted src ds de cfg hde
+  rw [listAll_eq]
+  exact mergePending_sorted _ _ 0 (blen src) 0 (blen src) 0 h1 h2 (Nat.le_refl _) (fun _ _ => Nat.zero_le _) hl
+
+/-- the general merge facts, for any two sorted lists (what the D12 repair restored) -/
+theorem merge_facts (ready pending : List Marker) (lo hi lo' hi' : Nat)
+    (h1 : MSorted ready lo hi) (h2 : MSorted pending lo' hi') :
+    (mergePending ready pending).filter (·.2) = ready.map (fun r => (r, true)) ∧
+    (mergePending ready pending).filter (fun x => !x.2) =
+      (pending.filter fun p => !swallowed ready p).map fun p => (p, false) :=
+  ⟨mergePending_ready ready pending, mergePending_pending ready pending lo hi lo' hi' h1 h2⟩
+
+/-! Kernel-evaluated instance: two pending ranges before a ready one and two inside it (the D12 witness shape). -/
+def mk (a b : Nat) : Marker := ⟨a, b, none⟩
+example : (mergePending [mk 20 40] [mk 0 5, mk 6 9, mk 22 25, mk 30 35, mk 50 60]).map (fun x => (x.1.start, x.2))
+    = [(0, false), (6, false), (20, true), (50, false)] := by decide +kernel
+
 end Chiritori.Props.C17
